@@ -1,27 +1,56 @@
 """C10 - graph projections / simplicial complex: correspondence of lean/Hgxv/Model/C10.lean with
 hypergraphx.representations.{projections,simplicial_complex}, hypergraphx.measures.edge_similarity, and independent
-property oracles (the property's words in plain Python) on the implementation's outputs."""
+property oracles (the property's words in plain Python) on the implementation's outputs.
+
+"For every hypergraph" = every object a user can hold.  A case is a small PROGRAM over up to three named objects
+(`prog`: construction, insertions, removals of hyperedges and nodes, `copy()`, `subhypergraph`, `clear()` and
+`project X` steps); every `project` step runs all projections on the object as it is at that moment and checks them
+against the content the history must have produced (tracked independently in plain Python)."""
+import copy
 import itertools
+import pickle
+import random
 import signal
 from fractions import Fraction
 
 import hgxv
 
-RULE = ("undirected: (thorough) every set of 1..4 distinct hyperedges (sizes 1-5) over a 5-node universe, all 5 nodes "
-        "added (uncovered ones are isolated), hyperedge order shuffled, labels drawn per case from sparse ints / shifted "
-        "ints / strings; (both tiers) random hypergraphs with 3-9 nodes, 1-10 hyperedges of size 1-5 with nested and "
-        "overlapping hyperedges injected and isolated nodes, 30% of them built through a history with a removed temporary "
-        "hyperedge and a removal + re-insertion; quick replaces the exhaustive scopes by random slices of them. directed: (thorough) every set of 1..3 hyperedges with "
-        "disjoint non-empty sides over 4 nodes; (both tiers) random ones with sides of size 1-3, some with overlapping "
-        "sides, plus a stream with an empty side (correspondence of the ZeroDivisionError only). Every case runs "
-        "bipartite, clique (keep_isolated False/True), line graph and directed line graph for intersection s in {1,2,3} "
-        "and Jaccard s in {1/4,1/3,1/2,2/3,1}, weighted False/True, the to_line_graph methods, simplicial_complex and "
-        "the similarity functions on all pairs. A case is distinct by (labels, node order, hyperedge order); non-trivial "
-        "when labels are not 0..N-1 and at least one pair of hyperedges overlaps")
+RULE = ("a case is a program over up to 3 objects of one class (Hypergraph or DirectedHypergraph, 15% weighted): "
+        "construction (add_nodes+add_edges / constructor with edge_list / add_edge one by one / detour with a removed "
+        "temporary hyperedge and a removal + re-insertion), then by route: plain (one projection); 'copy' (B = A.copy(), "
+        "or another derivation, B edited starting with a removal, A and B projected - A is the ORIGINAL of an edited "
+        "copy); 'copied' (A = O.copy() or another content-preserving derivation, O edited, A and O projected - A is "
+        "the COPY of an edited original); 'reproject' (A projected, edited in place - one hyperedge replaced by another "
+        "of the same shape so that node and hyperedge counts stay, or only an isolated node added / removed - and "
+        "projected again: stale caches); 'events' (1-5 random events among derive [copy(), copy.deepcopy, pickle round "
+        "trip, subhypergraph(all / some nodes), get_edges(size=k, subhypergraph=True)], edit [remove_edge(s), "
+        "add_edge(s), replace, re-insert, insert an existing hyperedge again, temporary hyperedge, add_node, "
+        "remove_node(s) with keep_edges False/True, clear] and project, then every live object is projected). Contents: undirected: (thorough) every set of 1..4 distinct hyperedges "
+        "(sizes 1-5) over a 5-node universe, all 5 nodes added (uncovered ones are isolated), hyperedge order shuffled, "
+        "reached by route plain/detour/copy/copied/reproject so that the projected object ends with exactly that "
+        "content; (both tiers) random hypergraphs with 3-9 nodes, 1-10 hyperedges of size 1-5 with nested and "
+        "overlapping hyperedges injected and isolated nodes (3% larger: 11-15 nodes, 10-16+ hyperedges); labels per case from sparse ints / shifted ints / "
+        "negative and huge ints / strings (incl. '', 'E0', 'N1'); quick replaces the exhaustive scopes by random slices. "
+        "directed: (thorough) every set of 1..3 hyperedges with disjoint non-empty sides over 4 nodes; (both tiers) "
+        "random ones with sides of size 1-3, some with overlapping sides, plus a stream with an empty side "
+        "(correspondence of the ZeroDivisionError only). Every project step runs bipartite, clique (keep_isolated "
+        "False/True), line graph and directed line graph for intersection s in {1,2,3} and Jaccard s in "
+        "{1/4,1/3,1/2,2/3,1} plus one more threshold per object (4, 5, 6, 1.0, 2.0 or another achievable ratio), weighted "
+        "False/True (every returned graph / id table is scribbled on after examination: a later call must not hand "
+        "out the same objects), the to_line_graph methods (given and default arguments), "
+        "simplicial_complex and the similarity functions on all pairs; the table of get_incident_edges of the real "
+        "object goes to the Lean driver (incidentOK = hypotheses of C10_line_checked_incident_table; the model's "
+        "line graph is computed from that table). One evaluated case = one project step, distinct by (labels, node "
+        "order, hyperedge order, kind of history); non-trivial when labels are not 0..N-1 and at least one pair of "
+        "hyperedges overlaps")
 ASSUMPTIONS = ["hyperedges are duplicate-free node tuples, distinct, sizes 1..5 (directed: the Jaccard claims need a "
                "non-empty union, i.e. non-empty sides)",
                "thresholds: integers >= 1 for intersection, fractions in (0,1] for Jaccard (passed to the code as floats)",
-               "labels are mapped to their rank in sorted order before they reach the model"]
+               "labels are mapped to their rank in sorted order before they reach the model",
+               "the content an object must have after a history (add/remove of nodes and hyperedges, copy, "
+               "subhypergraph, clear) is tracked by a plain-Python set model of the documented container semantics; "
+               "histories avoid remove_node(keep_edges=True) where it would create an empty hyperedge and, directed, "
+               "remove_node of a node that is on both sides of one hyperedge"]
 TRUSTED = ["float division i/u of two small ints is the correctly rounded quotient and rounding is monotone: the code's "
            "`w >= s` on floats agrees with the exact comparison of fractions with denominators <= 10 (weights compared "
            "as float(Fraction(i, u)))",
@@ -31,6 +60,11 @@ TRUSTED = ["float division i/u of two small ints is the correctly rounded quotie
 
 INT_S = [1, 2, 3]
 JAC_S = [Fraction(1, 4), Fraction(1, 3), Fraction(1, 2), Fraction(2, 3), Fraction(1)]
+# one more threshold per projected object, drawn from these (integers given as int or float, other achievable ratios)
+EXTRA_S = [("intersection", "i", Fraction(4), 4), ("intersection", "i", Fraction(5), 5), ("intersection", "i", Fraction(2), 2.0),
+           ("intersection", "i", Fraction(1), 1.0), ("intersection", "i", Fraction(6), 6)] + \
+          [("jaccard", "j", Fraction(a, b), a / b) for a, b in ((3, 4), (1, 5), (2, 5), (3, 5), (4, 5), (1, 6), (5, 6),
+                                                             (2, 7), (3, 8), (1, 10), (9, 10))]
 
 
 class Timeout(Exception):
@@ -137,8 +171,20 @@ def o_jacc(a, b):
     return Fraction(len(set(a) & set(b)), len(set(a) | set(b)))
 
 
+_VAL = {}     # values of the pairs of the object under examination (emptied for every projected object)
+
+
 def o_dist(dist, a, b):
-    return Fraction(o_inter(a, b)) if dist == "intersection" else o_jacc(a, b)
+    try:
+        return _VAL[(dist, a, b)]
+    except (KeyError, TypeError):
+        pass
+    v = Fraction(o_inter(a, b)) if dist == "intersection" else o_jacc(a, b)
+    try:
+        _VAL[(dist, a, b)] = v
+    except TypeError:
+        pass
+    return v
 
 
 def weight_is(w, val):
@@ -198,21 +244,25 @@ def oracle_line(viol, E, res, dist, s, weighted, directed):
     canon = (lambda e: (tuple(sorted(e[0])), tuple(sorted(e[1])))) if directed else (lambda e: tuple(sorted(e)))
     if sorted(canon(tab[i]) for i in range(m)) != sorted(E):
         return viol(f"{name}: the id table does not list the hyperedges one-to-one")
+    want = {}
     for i in range(m):
-        for j in range(m):
-            if directed:
-                val = o_dist(dist, tab[i][1], tab[j][0])
-            else:
-                val = o_dist(dist, tab[i], tab[j])
-            want = i != j and val >= s
-            if g.has_edge(i, j) != want:
-                return viol(f"{name}: {tab[i]!r} -> {tab[j]!r} with value {val} is "
-                            f"{'joined' if not want else 'not joined'}")
-            if want and weighted and not weight_is(g[i][j].get("weight", "-"), val):
-                return viol(f"{name}: weight of {tab[i]!r} -> {tab[j]!r} is {g[i][j].get('weight', '-')!r}, "
-                            f"value is {val}")
-    if g.number_of_edges() != sum(1 for i in range(m) for j in range(m) if (directed or i < j) and g.has_edge(i, j) and i != j):
-        return viol(f"{name}: self-loops or edges outside 0..{m - 1}")
+        for j in (range(m) if directed else range(i + 1, m)):
+            if i != j:
+                val = o_dist(dist, tab[i][1], tab[j][0]) if directed else o_dist(dist, tab[i], tab[j])
+                if val >= s:
+                    want[(i, j)] = val
+    got = {}
+    for u, v, a in g.edges(data=True):
+        got[(u, v) if directed or u <= v else (v, u)] = a.get("weight", "-")
+    if set(got) != set(want):
+        i, j = sorted(set(got) ^ set(want))[0]
+        val = o_dist(dist, tab[i][1], tab[j][0]) if directed else o_dist(dist, tab[i], tab[j])
+        return viol(f"{name}: {tab[i]!r} -> {tab[j]!r} with value {val} is "
+                    f"{'joined' if (i, j) in got else 'not joined'}")
+    if weighted:
+        for (i, j), val in want.items():
+            if not weight_is(got[(i, j)], val):
+                return viol(f"{name}: weight of {tab[i]!r} -> {tab[j]!r} is {got[(i, j)]!r}, value is {val}")
 
 
 def oracle_simplicial(viol, E, res):
@@ -233,47 +283,309 @@ def oracle_simplicial(viol, E, res):
 
 
 # ------------------------------------------------------------------------------------------
-# one case
+# histories: the content an object must have, tracked independently of the implementation
 
-def thresholds():
+def as_edge(kind, e):
+    """hyperedge as the API takes it (JSON replays hold lists)"""
+    if kind == "d":
+        return (tuple(e[0]), tuple(e[1]))
+    return tuple(e)
+
+
+def canon_edge(kind, e):
+    if kind == "d":
+        return (tuple(sorted(e[0])), tuple(sorted(e[1])))
+    return tuple(sorted(e))
+
+
+def members(kind, e):
+    return (set(e[0]) | set(e[1])) if kind == "d" else set(e)
+
+
+def esize(kind, e):
+    return len(e[0]) + len(e[1]) if kind == "d" else len(e)
+
+
+class Content:
+    """what get_nodes() / get_edges() of an object must list (as sets) after its history"""
+
+    def __init__(self, kind, nodes=(), edges=()):
+        self.kind = kind
+        self.nodes = set(nodes)
+        self.edges = set(edges)
+
+    def copy(self):
+        return Content(self.kind, self.nodes, self.edges)
+
+    def add_edge(self, e):
+        c = canon_edge(self.kind, e)
+        self.edges.add(c)
+        self.nodes |= members(self.kind, c)
+
+    def remove_edge(self, e):
+        self.edges.remove(canon_edge(self.kind, e))
+
+    def incident(self, n):
+        return sorted(e for e in self.edges if n in members(self.kind, e))
+
+    def remove_node(self, n, keep):
+        inc = self.incident(n)
+        if keep:
+            for e in inc:
+                if self.kind == "d":
+                    s, t = tuple(x for x in e[0] if x != n), tuple(x for x in e[1] if x != n)
+                    if s and t:
+                        self.edges.add((s, t))
+                else:
+                    self.edges.add(tuple(x for x in e if x != n))
+        for e in inc:
+            self.edges.discard(e)
+        self.nodes.discard(n)
+
+    def removable(self, n, keep):
+        """histories stay inside the documented use of remove_node (see ASSUMPTIONS)"""
+        inc = self.incident(n)
+        if self.kind == "d":
+            return not any(n in e[0] and n in e[1] for e in inc)
+        return not keep or all(len(e) >= 2 for e in inc)
+
+
+def track(T, kind, op):
+    """effect of one op of a program on the tracked contents T (name -> Content)"""
+    name, X = op[0], op[1]
+    if name == "new":
+        T[X] = Content(kind)
+    elif name == "ctor":
+        T[X] = Content(kind)
+        for e in op[2]:
+            T[X].add_edge(as_edge(kind, e))
+    elif name == "nodes":
+        T[X].nodes |= set(op[2])
+    elif name == "node":
+        T[X].nodes.add(op[2])
+    elif name == "edges":
+        for e in op[2]:
+            T[X].add_edge(as_edge(kind, e))
+    elif name == "edge":
+        T[X].add_edge(as_edge(kind, op[2]))
+    elif name == "rm":
+        T[X].remove_edge(as_edge(kind, op[2]))
+    elif name == "rms":
+        for e in op[2]:
+            T[X].remove_edge(as_edge(kind, e))
+    elif name == "rmnode":
+        T[X].remove_node(op[2], bool(op[3]))
+    elif name == "rmnodes":
+        for n in op[2]:
+            T[X].remove_node(n, bool(op[3]))
+    elif name in ("copy", "deepcopy", "pickle"):
+        T[X] = T[op[2]].copy()
+    elif name == "sub":
+        src, ns = T[op[2]], set(op[3])
+        T[X] = Content(kind, ns, {e for e in src.edges if members(kind, e) <= ns})
+    elif name == "subk":
+        src = T[op[2]]
+        es = {e for e in src.edges if esize(kind, e) == op[3]}
+        T[X] = Content(kind, set(src.nodes) if op[4] else set().union(*[members(kind, e) for e in es]), es)
+    elif name == "clear":
+        T[X] = Content(kind)
+    elif name != "project":
+        raise ValueError(f"unknown op {op!r}")
+
+
+def weight_of(kind, e):
+    return 1.0 + 0.5 * (esize(kind, e) % 3)
+
+
+def perform(H, kind, weighted, op):
+    """the same op on the real objects H (name -> Hypergraph / DirectedHypergraph)"""
+    from hypergraphx import Hypergraph, DirectedHypergraph
+    cls = DirectedHypergraph if kind == "d" else Hypergraph
+    name, X = op[0], op[1]
+    if name == "new":
+        H[X] = cls(weighted=True) if weighted else cls()
+    elif name == "ctor":
+        es = [as_edge(kind, e) for e in op[2]]
+        H[X] = cls(edge_list=es, weighted=True, weights=[weight_of(kind, e) for e in es]) if weighted else cls(edge_list=es)
+    elif name == "nodes":
+        H[X].add_nodes(list(op[2]))
+    elif name == "node":
+        H[X].add_node(op[2])
+    elif name == "edges":
+        es = [as_edge(kind, e) for e in op[2]]
+        if weighted:
+            H[X].add_edges(es, weights=[weight_of(kind, e) for e in es])
+        else:
+            H[X].add_edges(es)
+    elif name == "edge":
+        e = as_edge(kind, op[2])
+        if weighted:
+            H[X].add_edge(e, weight=weight_of(kind, e))
+        else:
+            H[X].add_edge(e)
+    elif name == "rm":
+        H[X].remove_edge(as_edge(kind, op[2]))
+    elif name == "rms":
+        H[X].remove_edges([as_edge(kind, e) for e in op[2]])
+    elif name == "rmnode":
+        H[X].remove_node(op[2], keep_edges=bool(op[3]))
+    elif name == "rmnodes":
+        H[X].remove_nodes(list(op[2]), keep_edges=bool(op[3]))
+    elif name == "copy":
+        H[X] = H[op[2]].copy()
+    elif name == "deepcopy":
+        H[X] = copy.deepcopy(H[op[2]])
+    elif name == "pickle":
+        H[X] = pickle.loads(pickle.dumps(H[op[2]]))
+    elif name == "sub":
+        H[X] = H[op[2]].subhypergraph(list(op[3]))
+    elif name == "subk":
+        H[X] = H[op[2]].get_edges(size=op[3], subhypergraph=True, keep_isolated_nodes=bool(op[4]))
+    elif name == "clear":
+        H[X].clear()
+    else:
+        raise ValueError(f"unknown op {op!r}")
+
+
+EDITS = ("node", "nodes", "edge", "edges", "rm", "rms", "rmnode", "rmnodes", "clear")
+REMOVALS = ("rm", "rms", "rmnode", "rmnodes", "clear")
+
+
+def legacy_prog(case):
+    """the one-object cases of the first rounds (fixed corner cases, stored replays) as programs"""
+    kind = "d" if case.get("kind") == "d" else "u"
+    edges = [as_edge(kind, e) for e in case.get("edges", [])]
+    prog = [["new", "A"], ["nodes", "A", list(case.get("nodes", []))]]
+    det = case.get("detour")
+    if det and edges:
+        temp = as_edge(kind, det["temp"])
+        e = edges[det["readd"] % len(edges)]
+        prog += [["edge", "A", temp], ["edges", "A", edges], ["rm", "A", temp], ["rm", "A", e], ["edge", "A", e]]
+    else:
+        prog.append(["edges", "A", edges])
+    prog.append(["project", "A"])
+    return {"kind": kind, "weighted": False, "prog": prog}
+
+
+def run_program(ctx, drv, case):
+    """executes the history on real objects and on the tracker; every `project` step is a checked case"""
+    if "prog" not in case:
+        case = legacy_prog(case)
+    kind = "d" if case.get("kind") == "d" else "u"
+    weighted = bool(case.get("weighted"))
+    H, T, info = {}, {}, {}
+    for step, op in enumerate(case["prog"]):
+        op = list(op)
+        name, X = op[0], op[1]
+        if name == "project":
+            tags = []
+            inf = info[X]
+            if inf["relative_edited"]:
+                tags.append("relative_edited")      # original of an edited copy / copy of an edited original
+            if inf["projected"] and inf["dirty"]:
+                tags.append("reprojected_after_edit")
+            if inf["removals"]:
+                tags.append("after_removals")
+            if inf["derived"]:
+                tags.append("derived_object")
+            vcase = {**case, "at_step": step, "object": X}
+            (project_directed if kind == "d" else project_undirected)(ctx, drv, vcase, case, H[X], T[X], tuple(tags))
+            inf["projected"], inf["dirty"] = True, False
+            if ctx.too_many():
+                return
+            continue
+        track(T, kind, op)
+        try:
+            perform(H, kind, weighted, op)
+        except Timeout:
+            raise
+        except Exception as ex:  # noqa: BLE001
+            ctx.violation({**case, "at_step": step},
+                          f"step {step} of the history, {op!r}, raised {type(ex).__name__}: {ex}"[:300])
+            return
+        if name in ("new", "ctor"):
+            info[X] = {"projected": False, "dirty": False, "removals": 0, "derived": False, "relative_edited": False,
+                       "family": {X}}
+        elif name in ("copy", "deepcopy", "pickle", "sub", "subk"):
+            fam = info[op[2]]["family"]
+            fam.add(X)
+            info[X] = {"projected": False, "dirty": False, "removals": info[op[2]]["removals"], "derived": True,
+                       "relative_edited": False, "family": fam}
+        elif name in EDITS:
+            info[X]["dirty"] = True
+            if name in REMOVALS:
+                info[X]["removals"] += 1
+            for Y in info[X]["family"]:
+                if Y != X:
+                    info[Y]["relative_edited"] = True
+
+
+# ------------------------------------------------------------------------------------------
+# one projected object
+
+def thresholds(E):
     for s in INT_S:
         yield "intersection", "i", s, s
     for s in JAC_S:
         yield "jaccard", "j", s, float(s)
+    # the extra one depends on the content only, so that a replay sees the same threshold
+    yield random.Random(repr(E)).choice(EXTRA_S)
 
 
-def check_undirected(ctx, drv, case):
-    from hypergraphx import Hypergraph
+def spoil(res):
+    """scribble on a returned graph / id table after it was examined: the next call must not hand out the same objects"""
+    if res[0] != "ok":
+        return
+    out = res[1] if isinstance(res[1], tuple) else (res[1],)
+    try:
+        out[0].add_edge("spoiled-a", "spoiled-b", weight=-1)
+        if len(out) > 1 and isinstance(out[1], dict):
+            out[1]["spoiled"] = ("spoiled",)
+    except Exception:  # noqa: BLE001
+        pass
+
+
+def content_ok(ctx, vcase, kind, nodes, E, want):
+    """the object holds what its history says (listings duplicate-free)"""
+    try:
+        ok = (set(nodes) == want.nodes and len(set(nodes)) == len(nodes)
+              and set(E) == want.edges and len(set(E)) == len(E))
+    except TypeError:
+        ok = False
+    if not ok:
+        ctx.violation(vcase, (f"after the history the object lists nodes {sorted(nodes, key=repr)!r} and hyperedges "
+                              f"{sorted(E, key=repr)!r}; the history gives nodes {sorted(want.nodes, key=repr)!r} and "
+                              f"hyperedges {sorted(want.edges, key=repr)!r}: the projections describe another hypergraph")[:700])
+    return ok
+
+
+def same_line_graph(directed, a, b):
+    return a[0] == b[0] and (a[0] != "ok" or (
+        canon_nx(a[1][0], directed, repr) == canon_nx(b[1][0], directed, repr) and a[1][1] == b[1][1]))
+
+
+def project_undirected(ctx, drv, vcase, case, h, want, tags):
     from hypergraphx.representations import projections as P
     from hypergraphx.representations.simplicial_complex import simplicial_complex
     from hypergraphx.measures import edge_similarity as ES
-    nodes_in = list(case["nodes"])
-    edges_in = [tuple(e) for e in case["edges"]]
-    h = Hypergraph()
-    h.add_nodes(nodes_in)
-    det = case.get("detour")
-    if det:
-        # same final content through a history with a removed temporary hyperedge and a removal + re-insertion
-        # (edge ids get gaps, the re-inserted hyperedge moves to the end of every listing)
-        h.add_edge(tuple(det["temp"]))
-        h.add_edges(edges_in)
-        h.remove_edge(tuple(det["temp"]))
-        e = edges_in[det["readd"]]
-        h.remove_edge(e)
-        h.add_edge(e)
-        ctx.count("built_through_detour")
-    else:
-        h.add_edges(edges_in)
     nodes = list(h.get_nodes())
     E = [tuple(sorted(e)) for e in h.get_edges()]
+    if not content_ok(ctx, vcase, "u", nodes, E, want):
+        return
+    _VAL.clear()
     rank = {x: i for i, x in enumerate(sorted(set(nodes)))}
-    unrank = {i: x for x, i in rank.items()}
 
     def viol(what):
-        ctx.violation(case, what)
+        ctx.violation(vcase, what)
 
     lines = ["load " + hgxv.enc_list([rank[x] for x in nodes]) + " " + hgxv.enc_lists([[rank[x] for x in e] for e in E])]
     expect = [("plain", "ok")]
+
+    # the table line_graph reads: the per-node incident lists of THIS object (a second piece of container state)
+    inc = guarded(lambda: [[tuple(sorted(e)) for e in h.get_incident_edges(n)] for n in nodes])
+    if inc[0] == "ok" and all(x in rank for l in inc[1] for e in l for x in e) and all(len(e) for l in inc[1] for e in l):
+        lines.append("inc " + hgxv.enc_listss([[[rank[x] for x in e] for e in l] for l in inc[1]]))
+        expect.append(("inc",))
 
     # bipartite
     res = guarded(P.bipartite_projection, h)
@@ -286,14 +598,16 @@ def check_undirected(ctx, drv, case):
         expect.append(("bip", canon_nx(g, False, str), t))
     else:
         expect.append(("exc",))
+    spoil(res)
     # clique
     for keep in (False, True):
         res = guarded(P.clique_projection, h, keep_isolated=keep)
         oracle_clique(viol, nodes, E, res, keep)
         lines.append(f"clique {int(keep)}")
         expect.append(("graph", canon_nx(res[1], False, lambda v: rank.get(v, -1)), False) if res[0] == "ok" else ("exc",))
+        spoil(res)
     # line graph
-    for dist, dcode, s, s_arg in thresholds():
+    for dist, dcode, s, s_arg in thresholds(E):
         for weighted in (False, True):
             res = guarded(P.line_graph, h, distance=dist, s=s_arg, weighted=weighted)
             oracle_line(viol, E, res, dist, s, weighted, False)
@@ -304,12 +618,12 @@ def check_undirected(ctx, drv, case):
                                [[rank.get(x, -1) for x in tab.get(i, ())] for i in range(len(tab))]))
             else:
                 expect.append(("exc",))
-    # the method is the function
-    res_m = guarded(h.to_line_graph, "jaccard", 0.5, True)
-    res_f = guarded(P.line_graph, h, "jaccard", 0.5, True)
-    if res_m[0] != res_f[0] or (res_m[0] == "ok" and (
-            canon_nx(res_m[1][0], False, repr) != canon_nx(res_f[1][0], False, repr) or res_m[1][1] != res_f[1][1])):
+            spoil(res)
+    # the method is the function (given and default arguments)
+    if not same_line_graph(False, guarded(h.to_line_graph, "jaccard", 0.5, True), guarded(P.line_graph, h, "jaccard", 0.5, True)):
         viol("Hypergraph.to_line_graph('jaccard', 0.5, True) differs from line_graph(h, 'jaccard', 0.5, True)")
+    if not same_line_graph(False, guarded(h.to_line_graph), guarded(P.line_graph, h)):
+        viol("Hypergraph.to_line_graph() differs from line_graph(h)")
     # simplicial complex
     res = guarded(lambda: [tuple(sorted(e)) for e in simplicial_complex(h).get_edges()])
     oracle_simplicial(viol, E, res)
@@ -331,52 +645,39 @@ def check_undirected(ctx, drv, case):
 
     overlapping = any(set(a) & set(b) for a, b in itertools.combinations(E, 2))
     nontrivial = overlapping and sorted(nodes, key=repr) != sorted(range(len(nodes)), key=repr)
-    ctx.case(repr((nodes, E)), nontrivial, sample=case)
+    ctx.case(repr((nodes, E, tags)), nontrivial, sample=case)
     ctx.count("undirected_cases")
     ctx.count("hyperedges_%d" % min(len(E), 6))
+    for t in tags:
+        ctx.count("undirected_" + t)
+    if case.get("weighted"):
+        ctx.count("weighted_hypergraph_cases")
     if len(nodes) > len({x for e in E for x in e}):
         ctx.count("with_isolated_nodes")
     if any(set(a) < set(b) or set(b) < set(a) for a, b in itertools.combinations(E, 2)):
         ctx.count("with_nested_hyperedges")
     if nodes and isinstance(nodes[0], str):
         ctx.count("string_labels")
-    compare(ctx, drv, case, lines, expect)
+    compare(ctx, drv, vcase, lines, expect)
 
 
-def check_directed(ctx, drv, case):
-    from hypergraphx import DirectedHypergraph
+def project_directed(ctx, drv, vcase, case, h, want, tags):
     from hypergraphx.representations import projections as P
-    nodes_in = list(case["nodes"])
-    edges_in = [(tuple(e[0]), tuple(e[1])) for e in case["edges"]]
-    h = DirectedHypergraph()
-    for x in nodes_in:
-        h.add_node(x)
-    det = case.get("detour")
-    if det and edges_in:
-        # same final content through a history with a removed temporary hyperedge and a removal + re-insertion
-        # (internal edge ids get gaps, the re-inserted hyperedge moves to the end of every listing)
-        temp = (tuple(det["temp"][0]), tuple(det["temp"][1]))
-        h.add_edge(temp)
-        h.add_edges(edges_in)
-        h.remove_edge(temp)
-        e = edges_in[det["readd"] % len(edges_in)]
-        h.remove_edge(e)
-        h.add_edge(e)
-        ctx.count("directed_built_through_detour")
-    else:
-        h.add_edges(edges_in)
     E = [(tuple(sorted(e[0])), tuple(sorted(e[1]))) for e in h.get_edges()]
     nodes = list(h.get_nodes())
+    if not content_ok(ctx, vcase, "d", nodes, E, want):
+        return
+    _VAL.clear()
     rank = {x: i for i, x in enumerate(sorted(set(nodes)))}
     empty_side = any(len(e[0]) == 0 or len(e[1]) == 0 for e in E)
 
     def viol(what):
-        ctx.violation(case, what)
+        ctx.violation(vcase, what)
 
     lines = ["dload " + hgxv.enc_lists([[rank[x] for x in e[0]] for e in E]) + " "
              + hgxv.enc_lists([[rank[x] for x in e[1]] for e in E])]
     expect = [("plain", "ok")]
-    for dist, dcode, s, s_arg in thresholds():
+    for dist, dcode, s, s_arg in thresholds(E):
         for weighted in (False, True):
             res = guarded(P.directed_line_graph, h, distance=dist, s=s_arg, weighted=weighted)
             if not (empty_side and dist == "jaccard"):
@@ -390,19 +691,24 @@ def check_directed(ctx, drv, case):
                                 for side in (0, 1)]))
             else:
                 expect.append(("exc",))
+            spoil(res)
     if not empty_side:
-        res_m = guarded(h.to_line_graph, "jaccard", 0.5, True)
-        res_f = guarded(P.directed_line_graph, h, "jaccard", 0.5, True)
-        if res_m[0] != res_f[0] or (res_m[0] == "ok" and (
-                canon_nx(res_m[1][0], True, repr) != canon_nx(res_f[1][0], True, repr) or res_m[1][1] != res_f[1][1])):
+        if not same_line_graph(True, guarded(h.to_line_graph, "jaccard", 0.5, True),
+                               guarded(P.directed_line_graph, h, "jaccard", 0.5, True)):
             viol("DirectedHypergraph.to_line_graph('jaccard', 0.5, True) differs from directed_line_graph")
+    if not same_line_graph(True, guarded(h.to_line_graph), guarded(P.directed_line_graph, h)):
+        viol("DirectedHypergraph.to_line_graph() differs from directed_line_graph(h)")
     overlapping = any(set(a[1]) & set(b[0]) for a in E for b in E if a != b)
     nontrivial = overlapping and sorted(nodes, key=repr) != sorted(range(len(nodes)), key=repr)
-    ctx.case(repr(("d", nodes, E)), nontrivial, sample=case)
+    ctx.case(repr(("d", nodes, E, tags)), nontrivial, sample=case)
     ctx.count("directed_cases")
+    for t in tags:
+        ctx.count("directed_" + t)
+    if case.get("weighted"):
+        ctx.count("weighted_hypergraph_cases")
     if empty_side:
         ctx.count("directed_with_empty_side")
-    compare(ctx, drv, case, lines, expect)
+    compare(ctx, drv, vcase, lines, expect)
 
 
 def compare(ctx, drv, case, lines, expect):
@@ -415,6 +721,15 @@ def compare(ctx, drv, case, lines, expect):
             kind = ex[0]
             if kind == "plain":
                 ok = a == ex[1]
+            elif kind == "inc":
+                ok = a == "1 1 1"
+                if not ok:
+                    ctx.disagree({**case, "line": ln},
+                                 "the table of get_incident_edges of this object fails the hypotheses of "
+                                 "C10_line_checked_incident_table (lists duplicate-free and made of listed hyperedges / "
+                                 f"members of a list share a node / intersecting hyperedges listed together = {a!r}): "
+                                 "the incident lists are not those of get_edges()")
+                    return
             elif kind == "exc":
                 ok = a == "exc"
             elif a in ("exc", "bad-op"):
@@ -461,18 +776,15 @@ def compare(ctx, drv, case, lines, expect):
 
 def check_case(ctx, drv, case):
     old = signal.signal(signal.SIGALRM, _alarm)
-    signal.alarm(20)
+    signal.alarm(30)
     try:
-        if case.get("kind") == "d":
-            check_directed(ctx, drv, case)
-        else:
-            check_undirected(ctx, drv, case)
+        run_program(ctx, drv, case)
     except Timeout:
-        ctx.violation(case, "the projection routines did not return within 20 s on this input")
+        ctx.violation(case, "the history / the projection routines did not return within 30 s on this input")
     except RuntimeError:
         raise                      # the Lean driver died: tool failure
     except Exception as e:  # noqa: BLE001
-        # the unchanged tree never gets here (seeds 0-4, thorough); outputs of an unexpected shape do
+        # the unchanged tree never gets here (seeds 0-5, thorough); outputs of an unexpected shape do
         ctx.violation(case, f"the outputs could not be examined as graphs / id tables / hyperedge lists: {e!r}"[:300])
     finally:
         signal.alarm(0)
@@ -480,26 +792,37 @@ def check_case(ctx, drv, case):
 
 
 # ------------------------------------------------------------------------------------------
-# generators
+# generators: contents
 
 def label_pool(rng, n):
     r = rng.random()
     if r < 0.3:
-        pool = [chr(97 + i) * k for i in range(12) for k in (1, 2)] + ["E0", "E1", "N0", "N1"]
+        pool = [chr(97 + i) * k for i in range(12) for k in (1, 2)] + ["E0", "E1", "N0", "N1", ""]
         return rng.sample(pool, n)
     if r < 0.5:
         off = rng.randint(1, 50)
         return rng.sample(range(off, off + n), n)
     if r < 0.6:
         return rng.sample(range(n), n)
+    if r < 0.68:
+        return rng.sample(list(range(-6, 7)) + [10 ** 9 + 7, 2 ** 63, 2 ** 63 + 1, -10 ** 12], n)
     return rng.sample(range(0, 60), n)
 
 
+def spare_labels(labels):
+    """labels that are in no content: for temporary items and for items of the OTHER object"""
+    if any(isinstance(x, str) for x in labels):
+        return [s for s in ("zx", "zy", "zz", "zw") if s not in labels][:3]
+    m = max(labels) if labels else 0
+    return [m + 1, m + 4, m + 9]
+
+
 def gen_undirected(rng):
-    n = rng.randint(3, 9)
+    big = rng.random() < 0.03        # a few larger ones: two-digit vertex names and ids
+    n = rng.randint(11, 15) if big else rng.randint(3, 9)
     labels = label_pool(rng, n)
     edges = []
-    for _ in range(rng.randint(1, 10)):
+    for _ in range(rng.randint(10, 16) if big else rng.randint(1, 10)):
         size = min(n, rng.choice([1, 2, 2, 3, 3, 4, 5]))
         e = tuple(rng.sample(labels, size))
         edges.append(e)
@@ -521,20 +844,15 @@ def gen_undirected(rng):
     iso = [x for x in labels if x not in covered and rng.random() < 0.7]
     nodes = [x for x in labels if x in covered and rng.random() < 0.5] + iso
     rng.shuffle(nodes)
-    case = {"kind": "u", "nodes": nodes, "edges": out}
-    if out and rng.random() < 0.3:
-        have = {frozenset(e) for e in out}
-        temp = tuple(rng.sample(labels, min(n, rng.randint(1, 4))))
-        if frozenset(temp) not in have:
-            case["detour"] = {"temp": list(temp), "readd": rng.randrange(len(out))}
-    return case
+    return {"kind": "u", "nodes": nodes, "edges": out, "labels": labels}
 
 
 def gen_directed(rng, empty_side=False):
-    n = rng.randint(3, 8)
+    big = rng.random() < 0.03
+    n = rng.randint(9, 12) if big else rng.randint(3, 8)
     labels = label_pool(rng, n)
     edges = []
-    for _ in range(rng.randint(1, 8)):
+    for _ in range(rng.randint(9, 14) if big else rng.randint(1, 8)):
         a = rng.randint(0 if empty_side and rng.random() < 0.4 else 1, 3)
         b = rng.randint(0 if empty_side and rng.random() < 0.4 else 1, 3)
         if a + b == 0:
@@ -562,20 +880,7 @@ def gen_directed(rng, empty_side=False):
             seen.add(k)
             out.append(e)
     iso = [x for x in labels if rng.random() < 0.2]
-    case = {"kind": "d", "nodes": iso, "edges": out}
-    if out and rng.random() < 0.3:
-        # a temporary hyperedge that is not part of the final content (its nodes stay, as isolated nodes or not)
-        for _ in range(5):
-            a, b = rng.sample(labels, 2)
-            if (frozenset([a]), frozenset([b])) not in seen:
-                case["detour"] = {"temp": [[a], [b]], "readd": rng.randrange(len(out))}
-                break
-    return case
-
-
-def relabel(rng, k):
-    """labels for an abstract universe 0..k-1"""
-    return label_pool(rng, k)
+    return {"kind": "d", "nodes": iso, "edges": out, "labels": labels}
 
 
 def small_undirected(rng, universe=5, max_edges=4):
@@ -598,16 +903,242 @@ def small_directed(universe=4, max_edges=3):
 
 
 def instantiate(rng, combo, universe, directed):
-    lab = relabel(rng, universe)
+    lab = label_pool(rng, universe)
     lab_sorted = sorted(lab)          # keep the abstract order so that every abstract case is a distinct concrete one
     combo = list(combo)
     rng.shuffle(combo)
     if directed:
         edges = [(tuple(rng.sample([lab_sorted[i] for i in e[0]], len(e[0]))),
                   tuple(rng.sample([lab_sorted[i] for i in e[1]], len(e[1])))) for e in combo]
-        return {"kind": "d", "nodes": rng.sample(lab_sorted, universe), "edges": edges}
+        return {"kind": "d", "nodes": rng.sample(lab_sorted, universe), "edges": edges, "labels": lab_sorted}
     edges = [tuple(rng.sample([lab_sorted[i] for i in e], len(e))) for e in combo]
-    return {"kind": "u", "nodes": rng.sample(lab_sorted, universe), "edges": edges}
+    return {"kind": "u", "nodes": rng.sample(lab_sorted, universe), "edges": edges, "labels": lab_sorted}
+
+
+# ------------------------------------------------------------------------------------------
+# generators: histories
+
+class Prog:
+    def __init__(self, kind):
+        self.kind, self.ops, self.T = kind, [], {}
+
+    def do(self, *op):
+        op = list(op)
+        track(self.T, self.kind, op)
+        self.ops.append(op)
+
+
+def new_edge(rng, kind, have, pool, like=None):
+    """a hyperedge over `pool` that is not in `have` (canonical forms); `like`: same shape as this one"""
+    pool = list(pool)
+    for _ in range(30):
+        if kind == "d":
+            a, b = (len(like[0]), len(like[1])) if like is not None else (rng.randint(1, 3), rng.randint(1, 3))
+            if a + b > len(pool) or a == 0 or b == 0:
+                a, b = 1, 1
+            if len(pool) < 2:
+                return None
+            pick = rng.sample(pool, a + b)
+            e = (tuple(pick[:a]), tuple(pick[a:]))
+        else:
+            k = len(like) if like is not None else rng.choice([1, 2, 2, 3, 3, 4, 5])
+            k = max(1, min(k, len(pool)))
+            if not pool:
+                return None
+            e = tuple(rng.sample(pool, k))
+        if canon_edge(kind, e) not in have:
+            return e
+    return None
+
+
+def gen_edit(rng, P, X, pool, spare, must_remove=False):
+    """one edit of object X (one to three ops), valid for its tracked content"""
+    kind, T = P.kind, P.T[X]
+    E = sorted(T.edges)
+    N = sorted(T.nodes)
+    choices = []
+    if E:
+        choices += ["rm", "rm", "replace", "readd", "rmnode", "rmnode_keep"] + ([] if must_remove else ["again"])
+    if len(E) >= 2:
+        choices += ["rms", "rmnodes"]
+    if not must_remove or not E:
+        choices += ["edge", "edges", "node", "temp"]
+        if rng.random() < 0.08:
+            choices = ["clear"]
+    m = rng.choice(choices)
+    if m in ("rmnode", "rmnode_keep", "rmnodes"):
+        keep = m == "rmnode_keep"
+        cand = [n for n in N if (T.incident(n) or rng.random() < 0.3) and T.removable(n, keep)]
+        if m == "rmnodes" and len(cand) >= 2:
+            return P.do("rmnodes", X, rng.sample(cand, 2), False)
+        if cand:
+            return P.do("rmnode", X, rng.choice(cand), keep)
+        m = "rm"
+    if m == "again":         # an existing hyperedge inserted once more, nodes in another order: nothing changes
+        e = rng.choice(E)
+        if kind == "d":
+            return P.do("edge", X, (tuple(rng.sample(e[0], len(e[0]))), tuple(rng.sample(e[1], len(e[1])))))
+        return P.do("edge", X, tuple(rng.sample(e, len(e))))
+    if m == "rm":
+        return P.do("rm", X, rng.choice(E))
+    if m == "rms":
+        return P.do("rms", X, rng.sample(E, 2))
+    if m == "readd":
+        e = rng.choice(E)
+        P.do("rm", X, e)
+        return P.do("edge", X, e)
+    if m == "replace":       # node and hyperedge counts stay what they were
+        e = rng.choice(E)
+        f = new_edge(rng, kind, T.edges, N, like=e)
+        P.do("rm", X, e)
+        if f is not None:
+            P.do("edge", X, f)
+        return
+    if m == "node":
+        free = [x for x in list(pool) + list(spare) if x not in T.nodes]
+        if free:
+            return P.do("node", X, rng.choice(free))
+        m = "edge"
+    if m == "clear":
+        P.do("clear", X)
+        m = "edges"
+    full = list(pool) + list(spare[:1])
+    f = new_edge(rng, kind, P.T[X].edges, full)
+    if f is None:
+        return
+    if m == "temp":
+        P.do("edge", X, f)
+        return P.do("rm", X, f)
+    if m == "edges":
+        g = new_edge(rng, kind, P.T[X].edges | {canon_edge(kind, f)}, full)
+        return P.do("edges", X, [f] + ([g] if g is not None else []))
+    return P.do("edge", X, f)
+
+
+def build(rng, P, X, nodes, edges, pool, style):
+    kind = P.kind
+    edges = list(edges)
+    if style == "ctor":
+        P.do("ctor", X, edges)
+        return P.do("nodes", X, list(nodes))
+    P.do("new", X)
+    P.do("nodes", X, list(nodes))
+    if style == "single":
+        for e in edges:
+            P.do("edge", X, e)
+        return
+    if style == "detour" and edges:
+        # a removed temporary hyperedge (ids get a gap) and a removal + re-insertion (the hyperedge moves to the end)
+        temp = new_edge(rng, kind, {canon_edge(kind, e) for e in edges}, pool)
+        if temp is not None:
+            P.do("edge", X, temp)
+        P.do("edges", X, edges)
+        if temp is not None:
+            P.do("rm", X, temp)
+        e = rng.choice(edges)
+        P.do("rm", X, e)
+        return P.do("edge", X, e)
+    P.do("edges", X, edges)
+
+
+def derive(rng, P, Y, X, exact=False):
+    """object Y from object X: copy(), subhypergraph(all nodes / some nodes), get_edges(size=k, subhypergraph=True);
+    `exact`: only the ways that give Y the whole content of X"""
+    kind, T = P.kind, P.T[X]
+    N = sorted(T.nodes)
+    how = rng.random()
+    if how < 0.5 or (exact and kind == "d" and how < 0.8):
+        return P.do("copy", Y, X)
+    if how < 0.6 or (exact and kind == "d"):
+        return P.do(rng.choice(["deepcopy", "pickle"]), Y, X)
+    if kind == "u" and (how < 0.8 or exact):
+        return P.do("sub", Y, X, rng.sample(N, len(N)))
+    if kind == "u" and how < 0.9:
+        return P.do("sub", Y, X, rng.sample(N, rng.randint(0, len(N))))
+    sizes = sorted({esize(kind, e) for e in T.edges}) or [2]
+    P.do("subk", Y, X, rng.choice(sizes + sizes + [7]), rng.random() < 0.5)
+
+
+ROUTES_RANDOM = ["plain"] * 3 + ["detour"] * 2 + ["copy"] * 4 + ["copied"] * 3 + ["reproject"] * 3 + ["events"] * 5
+ROUTES_SMALL = ["plain"] * 11 + ["detour"] * 2 + ["copy"] * 3 + ["copied"] * 2 + ["reproject"] * 2
+
+
+def make_case(rng, base, route):
+    """program whose (last) projection of object A sees the content `base` when the route is not 'events'"""
+    kind, nodes, edges, labels = base["kind"], base["nodes"], base["edges"], base["labels"]
+    spare = spare_labels(labels)
+    weighted = rng.random() < 0.15
+    P = Prog(kind)
+    style = rng.choice(["batch", "batch", "ctor", "single", "detour"])
+    if route in ("plain", "detour") or not edges:
+        build(rng, P, "A", nodes, edges, labels, "detour" if route == "detour" else rng.choice(["batch", "batch", "ctor", "single"]))
+        P.do("project", "A")
+    elif route == "copy":
+        # A is the ORIGINAL of a copy (or of a sub-hypergraph) that is edited afterwards
+        build(rng, P, "A", nodes, edges, labels, style)
+        if rng.random() < 0.3:
+            P.do("project", "A")
+        derive(rng, P, "B", "A")
+        gen_edit(rng, P, "B", labels, spare, must_remove=True)
+        for _ in range(rng.randint(0, 2)):
+            gen_edit(rng, P, "B", labels, spare)
+        P.do("project", "A")
+        P.do("project", "B")
+    elif route == "copied":
+        # A is the COPY (or the full sub-hypergraph) of an original that is edited afterwards
+        build(rng, P, "O", nodes, edges, labels, style)
+        if rng.random() < 0.3:
+            P.do("project", "O")
+        derive(rng, P, "A", "O", exact=True)
+        gen_edit(rng, P, "O", labels, spare, must_remove=True)
+        for _ in range(rng.randint(0, 2)):
+            gen_edit(rng, P, "O", labels, spare)
+        P.do("project", "A")
+        P.do("project", "O")
+    elif route == "reproject":
+        # A is projected, edited in place (same number of nodes and hyperedges when possible), projected again
+        iso = [x for x in nodes if not any(x in members(kind, e) for e in edges)]
+        r = rng.random()
+        if r < 0.15 and iso:
+            # only the node set changes: an isolated node arrives between the two projections
+            x = rng.choice(iso)
+            build(rng, P, "A", [y for y in nodes if y != x], edges, labels, style)
+            P.do("project", "A")
+            P.do("node", "A", x)
+        elif r < 0.3:
+            # only the node set changes: an isolated node leaves between the two projections
+            build(rng, P, "A", list(nodes) + spare[:1], edges, labels, style)
+            P.do("project", "A")
+            P.do("rmnode", "A", spare[0], rng.random() < 0.5)
+        else:
+            i = rng.randrange(len(edges))
+            present = sorted(set(nodes) | {x for e in edges for x in members(kind, e)})
+            f = new_edge(rng, kind, {canon_edge(kind, e) for e in edges}, present, like=edges[i])
+            first = edges[:i] + ([f] if f is not None else []) + edges[i + 1:]
+            build(rng, P, "A", nodes, first, labels, style)
+            P.do("project", "A")
+            if f is not None:
+                P.do("rm", "A", f)
+            P.do("edge", "A", edges[i])
+        P.do("project", "A")
+    else:
+        build(rng, P, "A", nodes, edges, labels, style)
+        objs = ["A"]
+        for _ in range(rng.randint(1, 5)):
+            X = rng.choice(objs)
+            r = rng.random()
+            if r < 0.3 and len(objs) < 3:
+                Y = "ABC"[len(objs)]
+                derive(rng, P, Y, X)
+                objs.append(Y)
+            elif r < 0.5:
+                P.do("project", X)
+            else:
+                for _ in range(rng.randint(1, 2)):
+                    gen_edit(rng, P, X, labels, spare)
+        for X in objs:
+            P.do("project", X)
+    return {"kind": kind, "weighted": weighted, "route": route, "prog": P.ops}
 
 
 def low(ctx, reserve=5):
@@ -630,11 +1161,11 @@ def run(ctx):
     for _ in range(ctx.scale(400, 1500)):
         if low(ctx):
             break
-        check_case(ctx, drv, gen_undirected(rng))
+        check_case(ctx, drv, make_case(rng, gen_undirected(rng), rng.choice(ROUTES_RANDOM)))
     for i in range(ctx.scale(280, 1200)):
         if low(ctx):
             break
-        check_case(ctx, drv, gen_directed(rng, empty_side=(i % 8 == 7)))
+        check_case(ctx, drv, make_case(rng, gen_directed(rng, empty_side=(i % 8 == 7)), rng.choice(ROUTES_RANDOM)))
     # small scope: exhaustive in thorough, a random slice in quick
     if thorough:
         it_u = small_undirected(rng)
@@ -646,14 +1177,14 @@ def run(ctx):
         it_d = rng.sample(all_d, 200)
     done_u = done_d = 0
     for combo in it_d:
-        if low(ctx, 120 if thorough else 5):
+        if low(ctx, 180 if thorough else 5):
             break
-        check_case(ctx, drv, instantiate(rng, combo, 4, True))
+        check_case(ctx, drv, make_case(rng, instantiate(rng, combo, 4, True), rng.choice(ROUTES_SMALL)))
         done_d += 1
     for combo in it_u:
         if low(ctx, 20 if thorough else 5):
             break
-        check_case(ctx, drv, instantiate(rng, combo, 5, False))
+        check_case(ctx, drv, make_case(rng, instantiate(rng, combo, 5, False), rng.choice(ROUTES_SMALL)))
         done_u += 1
     ctx.extra["small_scope_undirected_done"] = done_u
     ctx.extra["small_scope_directed_done"] = done_d
@@ -665,9 +1196,6 @@ def run(ctx):
 def replay(ctx, case):
     drv = ctx.driver() if ctx.model_available else None
     case = dict(case)
-    case.pop("line", None)
-    if case.get("kind") == "d":
-        case["edges"] = [(tuple(e[0]), tuple(e[1])) for e in case["edges"]]
-    else:
-        case["edges"] = [tuple(e) for e in case["edges"]]
+    for k in ("line", "at_step", "object"):
+        case.pop(k, None)
     check_case(ctx, drv, case)
